@@ -174,6 +174,23 @@ func Prepare(c *Case, graphFn func(steps []dag.Step) (*scheduler.ExecutionGraph,
 	if err != nil {
 		return nil, err
 	}
+	for i := range steps {
+		sp := c.Step(steps[i].Name)
+		if sp == nil || sp.SetupFail {
+			continue
+		}
+		out, errf := filepath.Join(dir, "redir-"+sp.Name+".out"), filepath.Join(dir, "redir-"+sp.Name+".err")
+		switch sp.Redirect {
+		case 1:
+			steps[i].Stdout = out
+		case 2:
+			steps[i].Stderr = errf
+		case 3:
+			steps[i].Stdout, steps[i].Stderr = out, errf
+		case 4:
+			steps[i].Stdout, steps[i].Stderr = out, out
+		}
+	}
 	pause := time.Duration(c.PauseUS) * time.Microsecond
 	if pause <= 0 {
 		pause = 100 * time.Microsecond
